@@ -708,7 +708,7 @@ def mass_scan_cases(ctx, rnd, n):
             p_.mass = m_
             p_.get_mass = (lambda v=m_: v)  # plain BaseParticle objects of DecayChain.from_particles carry no mass API
         leaves = [x.part for x in nd.nodes() if not x.kids]
-        lo = sum(mass[f_] for f_ in leaves)
+        lo = sum(mass[k_.part] for k_ in nd.kids)  # the daughters keep their nominal masses: the scanned mass stays above their sum
         ms = [lo + (mass[nd.part] - lo) * x for x in (0.5, 1.0, 0.8)]
         for as_obj in (False, True):
             name = nd.part if as_obj else str(nd.part)
